@@ -7,6 +7,7 @@ package c15
 
 import (
 	"bytes"
+	"context"
 	"fmt"
 	"io"
 	"strconv"
@@ -16,6 +17,7 @@ import (
 	"testing/synctest"
 
 	"github.com/buildbarn/bb-storage/pkg/blobstore/buffer"
+	"github.com/buildbarn/bb-storage/pkg/blobstore/replication"
 	"google.golang.org/grpc/codes"
 	"google.golang.org/grpc/status"
 	"google.golang.org/protobuf/proto"
@@ -144,6 +146,7 @@ type progRun struct {
 	tasks    []*gtask
 	sibs     []*sibling
 	handlers []*handler
+	sinks    []*fakeBA
 
 	mainDone    atomic.Bool
 	buildPanic  string
@@ -267,13 +270,41 @@ func (p *progRun) build() (cur buffer.Buffer, err error) {
 	for _, tok := range p.c.toks[1:] {
 		f := strings.Split(tok, ".")
 		switch {
-		case f[0] == "cs" && len(f) == 3 && (f[1] == "l" || f[1] == "r") && (f[2] == "d" || f[2] == "r"):
+		case f[0] == "cs" && len(f) == 3 && (f[1] == "l" || f[1] == "r") && (f[2] == "d" || f[2] == "r" || f[2] == "a"):
 			b1, b2 := cur.CloneStream()
 			if f[1] == "r" {
 				b1, b2 = b2, b1
 			}
 			cur = b1
-			p.spawn(b2, f[2])
+			if f[2] != "a" { // a: the other handle is abandoned
+				p.spawn(b2, f[2])
+			}
+		case f[0] == "rs" && len(f) == 2 && (f[1] == "live" || f[1] == "cancel"):
+			// the real localBlobReplicator.ReplicateSingle over fake backends
+			ctx := context.Background()
+			if f[1] == "cancel" {
+				c, cancel := context.WithCancel(ctx)
+				cancel()
+				ctx = c
+			}
+			t := &gtask{id: len(p.tasks), gate: make(chan struct{}), open: true}
+			p.tasks = append(p.tasks, t)
+			s := &sibling{policy: "r"}
+			p.sibs = append(p.sibs, s)
+			got := cur
+			source := &fakeBA{get: func() buffer.Buffer { return got }}
+			sink := &fakeBA{put: func(b buffer.Buffer) error {
+				if m := guard(func() { s.data, s.err = b.ToByteSlice(bigMax) }); m != "" {
+					s.panicV.Store(m)
+				}
+				s.done.Store(true)
+				<-t.gate
+				t.done.Store(true)
+				return s.err
+			}}
+			p.sinks = append(p.sinks, sink)
+			cur = replication.NewLocalBlobReplicator(source, sink).ReplicateSingle(ctx, digestOf(p.c.content))
+			t.ranSync = t.done.Load()
 		case f[0] == "cc" && len(f) == 2 && (f[1] == "l" || f[1] == "r"):
 			b1, b2 := cur.CloneCopy(bigMax)
 			if f[1] == "r" {
@@ -297,7 +328,7 @@ func (p *progRun) build() (cur buffer.Buffer, err error) {
 				return nil
 			})
 			t.ranSync = t.done.Load()
-		case f[0] == "rp" && len(f) == 4 && (f[1] == "l" || f[1] == "r") && (f[2] == "d" || f[2] == "r"):
+		case f[0] == "rp" && len(f) == 4 && (f[1] == "l" || f[1] == "r") && (f[2] == "d" || f[2] == "r" || f[2] == "a"):
 			// the replication pattern: the task itself consumes the other handle
 			k, err := strconv.Atoi(f[3])
 			if err != nil || k < 0 {
@@ -313,9 +344,10 @@ func (p *progRun) build() (cur buffer.Buffer, err error) {
 			p.sibs = append(p.sibs, s)
 			cur = b1.WithTask(func() error {
 				if m := guard(func() {
-					if s.policy == "r" {
+					switch s.policy {
+					case "r":
 						s.data, s.err = b2.ToByteSlice(bigMax)
-					} else {
+					case "d":
 						b2.Discard()
 					}
 				}); m != "" {
